@@ -911,8 +911,12 @@ Proof.
     + rewrite nth_error_app2 in H1 by exact Hge. destruct (r - List.length (m_reqs m)) as [|k]; cbn in H1.
       * inversion H1; subst. discriminate.
       * destruct k; discriminate.
-  - destruct (nth_error (m_reqs m) r) as [x|]; [|apply msoft_refl]. destruct (ri_stat x); try apply msoft_refl;
-      apply msoft_ri_upd; cbn; intros; discriminate.
+  - destruct (nth_error (m_reqs m) r) as [x|]; [|apply msoft_refl].
+    assert (Hb : forall c, msoft m (ci_upd (set_ci_back (m_i m)) c m)) by (intros c; apply msoft_ci_upd; intros y; cbn; auto).
+    destruct (ri_stat x); try apply msoft_refl; cbv zeta;
+      (eapply msoft_trans; [|apply msoft_ri_upd; cbn; intros; discriminate]); try apply msoft_refl.
+    destruct (ri_popx x) as [c|]; [|apply msoft_refl]. destruct (nth_error (m_conns m) c) as [y|]; [|apply msoft_refl].
+    destruct (ci_share y); [apply msoft_refl|apply Hb].
   - exfalso. eapply Hu; reflexivity.
   - apply msoft_ri_upd. intros y c. destruct (ri_dial y), (ri_resolved y); cbn; auto.
   - apply msoft_ci_upd. intros y. cbn. auto.
@@ -923,8 +927,13 @@ Lemma cancel_not_held cfg m r ob ri c' :
   nth_error (m_reqs (track_op cfg m (Cancel r) ob)) r = Some ri -> ri_stat ri <> SHeld c'.
 Proof.
   cbn [track_op]. destruct (nth_error (m_reqs m) r) as [x|] eqn:E; [|intros H; congruence].
-  destruct (ri_stat x) eqn:Es; try (intros H; rewrite E in H; inversion H; subst; congruence);
-    cbn [ri_upd set_m_reqs m_reqs]; rewrite (nth_error_upd_nth_eq _ _ _ _ E); intros H; inversion H; subst; cbn; discriminate.
+  destruct (ri_stat x) eqn:Es; try (intros H; rewrite E in H; inversion H; subst; congruence); cbv zeta;
+    match goal with |- nth_error (m_reqs (ri_upd ?f r ?m')) r = _ -> _ =>
+      assert (Em : m_reqs m' = m_reqs m)
+        by (first [reflexivity | destruct (ri_popx x) as [c|]; [|reflexivity]; destruct (nth_error (m_conns m) c) as [y|]; [|reflexivity];
+            destruct (ci_share y); reflexivity]);
+      cbn [ri_upd set_m_reqs m_reqs]; rewrite Em, (nth_error_upd_nth_eq f _ _ _ E)
+    end; intros H; inversion H; subst; cbn; discriminate.
 Qed.
 
 (* ---------------------------------------------------------------- upgrade *)
